@@ -980,8 +980,8 @@ ROUTES_C12 = [
     ('quaternion:Quaternion.__mul__', 'Quaternion * Quaternion -> qqmul through binop', ['Quaternion(left.binop(right, qqmul))'], 'any'),
     ('quaternion:UnitQuaternion.__mul__', 'UnitQuaternion * UnitQuaternion -> qqmul through binop', ['right.__class__(left.binop(right, qqmul))'], 'any'),
     ('quaternion:UnitQuaternion.__truediv__', 'q1 / q2 = q1 * conj(q2)', ['UnitQuaternion(left.binop(right, lambda x, y: qqmul(x, conj(y))))'], 'any'),
-    ('quaternion:Quaternion.__add__', 'sum is component-wise through binop', ['Quaternion(left.binop(right, lambda x, y: x + y))'], 'any'),
-    ('quaternion:Quaternion.__sub__', 'difference is component-wise through binop', ['Quaternion(left.binop(right, lambda x, y: x - y))'], 'any'),
+    ('quaternion:Quaternion.__add__', 'sum is component-wise through binop', ['Quaternion(left.binop(right, lambda x, y: x + y))', 'Quaternion(left.binop(right, add))'], 'any'),
+    ('quaternion:Quaternion.__sub__', 'difference is component-wise through binop', ['Quaternion(left.binop(right, lambda x, y: x - y))', 'Quaternion(left.binop(right, sub))', 'Quaternion(left.binop(right, subtract))'], 'any'),
     ('quaternion:Quaternion.__pow__', 'power through qpow on every element', ['self.__class__([qpow(q._A, n) for q in self])'], 'return'),
     ('quaternion:Quaternion.conj', 'conjugate of every element', ['self.__class__([conj(q._A) for q in self])'], 'return'),
     ('quaternion:Quaternion.inner', 'inner product through binop', ['self.binop(other, inner, list1=False)'], 'return'),
@@ -1811,7 +1811,11 @@ def tables_c19(run):
     # plane convention n.x + d = 0 : writer PN, readers contains / intersect_plane / Planes
     cp = Ctx(run, 'geom3d:Plane.PN')
     r = _single_return_value(cp)
-    okw = r is not None and matches('cls(r_[n, -dot(n, p)])', canon(cp.fi, r.value, inline=False)) is not None
+    okw = r is not None and (matches('cls(r_[n, -dot(n, p)])', canon(cp.fi, r.value, inline=False)) is not None or
+                             matches('cls(r_[n, -dot(n, p)])', canon(cp.fi, r.value)) is not None)
+    if not okw and r is not None:
+        ev_ = [e_ for (r_, e_) in sl_eval(cp) if r_ is r]
+        okw = any(matches('cls(r_[n, -dot(n, p)])', e_) is not None or matches('cls(r_[n, -dot(p, n)])', e_) is not None for e_ in ev_)
     (run.holds if okw else run.violation)(RULE, cp.f.key, 'plane writer', 'plane = [n, -n.p]  (n.x + d = 0)' if okw else
                                           'Plane.PN does not build [n, -dot(n, p)]', f=cp.f)
     ck = Ctx(run, 'geom3d:Plane.contains')
